@@ -310,7 +310,7 @@ SUBS = [
     MachineSub("pool_histories", PoolMachine,
                "rule-based machine: a pool of signals on writable NumPy buffers (contiguous, strided along time / last axis, Fortran order) and of "
                "array/Quantity/DM/chirp arguments; rules apply any applicable catalogue operation to any pool member, re-use an earlier argument "
-               "object, or make a call that raises; results (often views of inputs) join the pool; every member is compared with its snapshot after "
+               "object, concatenate pieces that carry different meta dicts, or make a call that raises; results (often views of inputs) join the pool; every member is compared with its snapshot after "
                "every step; non-trivial = some member was the input of >= 2 operations", quick=700, thorough=8000, steps_quick=14, steps_thorough=30,
                pieces_quick=6),
     Sub("single_calls", single_case(), run_single,
